@@ -33,7 +33,7 @@ ANCHORS = [
     ('vivarium/core/emitter.py', ['RAMEmitter.__init__', 'RAMEmitter.emit', 'RAMEmitter.get_data',
                                   'Emitter.get_data_deserialized']),
 ]
-BUDGET = {'quick': 1400, 'thorough': 30000}
+BUDGET = {'quick': 4000, 'thorough': 120000}
 RULE = ('cases: nested value trees (depth ≤ 5) over None/bool/int/float/str/list/tuple/set/dict/'
         'numpy scalars and arrays/quantities (scalar and 1-d array magnitudes)/units/processes/'
         'functions, ~25% of them from the malformed stream (non-string, np.str_ and str-subclass keys '
@@ -618,6 +618,9 @@ def run_impl(case):
     except Exception as e:  # noqa
         obs['badkeys'] = {'err': exc_name(e)}
 
+    # ---- the fallback hook itself on the nodes orjson hands to it (model: defaultHook)
+    obs['hooks'] = _hook_obs(spec, value, env, reprs)
+
     # ---- the regex on every string leaf of the case (model: tagContent)
     us = _units_serializer(env)
     tags = []
@@ -716,6 +719,66 @@ def _expected_bad(spec, env, curr=()):
                 out.append(curr + (k,))
             out.extend(_expected_bad(v, env, curr + (k,)))
     return out
+
+
+HOOK_KINDS = ('set', 'nd', 'ndo', 'q', 'qa', 'u', 'p', 'fn', 'x')
+
+
+def _hook_nodes(spec):
+    """(spec node, access path) of the first few nodes that reach the fallback hook, found
+    through lists / tuples / str-keyed dicts only (so that the live object can be fetched)"""
+    out = []
+
+    def rec(s, path):
+        if len(out) >= 6:
+            return
+        k = _kind(s)
+        recip = (k == 'q' and s['q'][1].startswith('1 /')) or (k == 'qa' and s['qa'][2].startswith('1 /'))
+        if k in HOOK_KINDS and not (k == 'x' and s['x'] == 'surrogate') and not recip:
+            out.append((s, path))
+        if k in ('l', 't'):
+            for i, c in enumerate(s[k]):
+                rec(c, path + [i])
+        elif k == 'd' and all(_kind(key) == 's' for key, _ in s['d']):
+            for key, c in s['d']:
+                rec(c, path + [key['s']])
+    rec(spec, [])
+    return out
+
+
+def _hook_summary_py(res):
+    if type(res) is list:
+        return f'list:{len(res)}'
+    if type(res) is str:
+        return 'str:' + res
+    return 'other:' + type(res).__name__
+
+
+def _hook_obs(spec, value, env, reprs):
+    default = env.S.make_fallback_serializer_function()
+    out = []
+    for node, path in _hook_nodes(spec):
+        obj = value
+        for step in path:
+            obj = obj[step]
+        try:
+            out.append(_hook_summary_py(default(obj)))
+        except TypeError:
+            out.append('TypeError')
+        except Exception as e:  # noqa
+            out.append('raised:' + type(e).__name__)
+    return out
+
+
+def _hook_summary_model(ans):
+    if 'err' in ans:
+        return ans['err']
+    v = ans['ok']
+    if isinstance(v, dict) and 'l' in v:
+        return f'list:{len(v["l"])}'
+    if isinstance(v, dict) and 's' in v:
+        return 'str:' + v['s']
+    return 'other:' + json.dumps(v)[:40]
 
 
 def _embed(case, value):
@@ -1011,13 +1074,41 @@ def model_requests(case):
     v = to_model(spec, [])
     reqs = [{'op': 'serialize', 'v': v}, {'op': 'badkeys', 'v': v}, {'op': 'roundtrip', 'v': v},
             {'op': 'view', 'v': v}]
-    for text in _string_leaves(spec):
+    texts = _string_leaves(spec)
+    for text in texts:
         reqs.append({'op': 'tagContent', 's': text})
+    # placeholders must be numbered as in `v`: convert the whole tree again and pick the nodes
+    ctx = []
+    conv = {}
+
+    def rec(s):
+        me = to_model_shallow(s, ctx)
+        conv[id(s)] = me
+        for c in children(s):
+            rec(c)
+    rec(spec)
+    for node, _ in _hook_nodes(spec):
+        reqs.append({'op': 'hook', 'v': conv[id(node)] if conv[id(node)] is not None else to_model(node, [])})
     return reqs
 
 
+def to_model_shallow(s, ctx):
+    """model encoding of a process / function node with the placeholder number it has in the
+    whole tree (preorder), None for other nodes"""
+    k = _kind(s)
+    if k == 'p':
+        ctx.append(1)
+        return {'p': f'<<P{len(ctx) - 1}>>'}
+    if k == 'fn':
+        ctx.append(1)
+        return {'fn': f'<<F{len(ctx) - 1}>>'}
+    return None
+
+
 def model_obs(case, ans):
-    return {'ser': ans[0], 'badkeys': ans[1], 'deser': ans[2], 'view': ans[3], 'tags': ans[4:]}
+    nt = len(_string_leaves(case['v']))
+    return {'ser': ans[0], 'badkeys': ans[1], 'deser': ans[2], 'view': ans[3], 'tags': ans[4:4 + nt],
+            'hooks': [_hook_summary_model(a) for a in ans[4 + nt:]]}
 
 
 def _subst(x, reprs):
@@ -1077,6 +1168,9 @@ def compare(case, impl, model):
         diffs.append(f'bad-key paths: impl={_short(bi)} model={_short(bm)}')
     if io.get('tags') != model['tags']:
         diffs.append(f'units regex: impl={_short(io.get("tags"))} model={_short(model["tags"])}')
+    mh = [_subst(h, reprs) for h in model.get('hooks', [])]
+    if io.get('hooks') != mh:
+        diffs.append(f'fallback hook: impl={_short(io.get("hooks"))} model={_short(mh)}')
     if 'ok' in io['ser'] and deser_comparable(spec):
         md = _canon_res(spec, _subst(model['deser'], reprs), 'l', 'd')
         idr = _canon_res(spec, io.get('deser'), 'l', 'd')
@@ -1097,7 +1191,7 @@ def oracle(case, impl):
 
 def nontrivial(case, impl):
     nodes = list(walk(case['v']))
-    if case.get('stream') in ('malformed', 'taglike'):
+    if case.get('stream') in ('malformed', 'taglike', 'exhaustive'):
         return True
     return len(nodes) >= 3
 
@@ -1514,7 +1608,47 @@ def generate(rng, n, tier):
             case['v'] = _dedupe_sets(_mutate_at(rng, tree, rng.randrange(0, _count(tree)), make_taglike(rng)))
             case['stream'] = 'taglike'
         cases.append(case)
+    if tier == 'thorough':
+        cases.extend(exhaustive_family())
     return cases
+
+
+def exhaustive_family():
+    """every container kind around every ordered pair (and single, and none) of a leaf alphabet
+    that covers each leaf class incl. the malformed ones; and every such pair as dict values
+    under every key class"""
+    leaves = [None, True, {'i': '0'}, {'i': '18446744073709551615'}, {'i': '18446744073709551616'},
+              {'i': '-9223372036854775809'}, {'f': '1.5'}, {'f': 'nan'}, {'f': '-inf'}, {'s': 'a'},
+              {'s': '!units[5 gram]'}, {'s': '!units[5 gram]\n'}, {'ns': 'b'}, {'np': ['float32', '0.1']},
+              {'np': ['uint64', '18446744073709551615']}, {'q': [{'f': 'nan'}, 'femtogram']},
+              {'q': [{'i': '3'}, 'count / femtoliter']}, {'u': 'millimole / gram / hour'},
+              {'qa': ['float64', ['1.0', 'nan'], 'gram']}, {'fn': 'plain'}, {'p': ['B', {'k': 3}]},
+              {'x': 'frozenset'}, {'x': 'bytes'}, {'t': []}, {'l': [{'s': 'x'}]},
+              {'d': [[{'o': 'int:1'}, None]]}, {'d': [[{'s': 'k'}, {'u': 'gram'}]]}]
+    hashable = [x for x in leaves if _kind(x) not in ('l', 'd', 'qa')]
+    out = []
+    for kind in ('l', 't', 'set'):
+        pool = hashable if kind == 'set' else leaves
+        combos = [[]] + [[a] for a in pool] + [[a, b] for a in pool for b in pool]
+        for combo in combos:
+            spec = _dedupe_sets({kind: combo})
+            if kind == 'set':
+                # keep only sets whose elements stay distinct under python equality (pint: 3 count == 3)
+                if len(spec['set']) != len(combo):
+                    continue
+                kinds = {_kind(c) for c in combo}
+                if kinds & {'q', 'u'} and kinds & {'bool', 'i', 'f', 'np'}:
+                    continue
+            out.append({'kind': 'tree', 'v': spec, 'stream': 'exhaustive'})
+    keys = [{'s': 'a'}, {'s': ''}, {'ns': 'n'}, {'ss': 'sub'}, {'o': 'int:1'}, {'o': 'none'}, {'o': 'tuple'}]
+    for k1 in keys:
+        for k2 in keys:
+            if _key_standin(k1) == _key_standin(k2):
+                continue
+            for a in leaves[::3]:
+                out.append({'kind': 'tree', 'stream': 'exhaustive',
+                            'v': {'d': [[k1, a], [k2, {'d': [[{'s': 'in'}, a]]}]]}})
+    return out
 
 
 def _t(x):
